@@ -28,8 +28,10 @@ TRACE_CFG = {"UC20grub": "TraceBootTry.cfg", "UC20ns": "TraceBootTry_UC20ns.cfg"
 
 # ------------------------------------------------------------------ TLC dump -> python states
 
-def iter_dump(path, want=None):
-    """Yield dict(var -> python value) for every state of a TLC -dump file whose raw text satisfies want(text)."""
+def iter_dump(path, want=None, dedupe=False):
+    """Yield dict(var -> python value) for every state of a TLC -dump file whose raw text satisfies want(text).
+    dedupe: yield only the first of the states that differ in nothing but the history variable h."""
+    seen = set() if dedupe else None
     if not os.path.exists(path) and os.path.exists(path + ".dump"):
         path = path + ".dump"
     with open(path) as f:
@@ -37,14 +39,14 @@ def iter_dump(path, want=None):
         for line in f:
             if line.startswith("State "):
                 if buf:
-                    st = _parse_state(buf, want)
+                    st = _parse_state(buf, want, seen)
                     if st is not None:
                         yield st
                 buf = []
             else:
                 buf.append(line)
         if buf:
-            st = _parse_state(buf, want)
+            st = _parse_state(buf, want, seen)
             if st is not None:
                 yield st
 
@@ -52,7 +54,7 @@ def iter_dump(path, want=None):
 _var_re = re.compile(r'^/\\ ([A-Za-z_][A-Za-z0-9_]*) = (.*)$')
 
 
-def _parse_state(lines, want):
+def _parse_state(lines, want, seen=None):
     text = "".join(lines)
     if want is not None and not want(text):
         return None
@@ -65,6 +67,12 @@ def _parse_state(lines, want):
             out[cur] = [m.group(2)]
         elif cur is not None and ln.strip():
             out[cur].append(ln)
+    if seen is not None:
+        # cheap textual dedupe on everything but the history variable before the (slow) value parser runs
+        k = hash(tuple((v, "".join(out[v])) for v in sorted(out) if v != "h"))
+        if k in seen:
+            return None
+        seen.add(k)
     return {k: tlaparse.parse_value("\n".join(v)) for k, v in out.items()}
 
 
@@ -88,7 +96,7 @@ def cases_from_dump(path, variant, limit=None, rng=None):
             'phase |-> "ibase"' in text
 
     n = 0
-    for st in iter_dump(path, want):
+    for st in iter_dump(path, want, dedupe=True):
         n += 1
         a = st["act"]
         ph = st["boot"]["phase"]
